@@ -325,6 +325,28 @@ pub fn random_behaviour(r: &mut Rng, t: &mut Trace, steps: usize) {
             t.run(&mut w, op);
         }
     }
+    // the owner re-registers both native denoms with other decimals (the factory pushes them to the pairs, whichever
+    // position the denom has there); then, on every funded pair and in both directions, a quoted swap with the belief
+    // price at the raw quoted price and a 1% limit: the guard must judge it by the NEW decimals
+    for (d, dec) in [("ua", 9u64), ("ub", 1), ("ua", 4), ("ub", 11)] {
+        t.run(&mut w, json!({"op": "fac_add_native", "caller": "owner", "denom": d, "decimals": dec}));
+    }
+    for i in 0..np {
+        let (a0, a1) = pair_infos(&w, i);
+        let paddr = w.pairs[i].addr.clone();
+        for (offer, other) in [(a0.clone(), a1.clone()), (a1.clone(), a0.clone())] {
+            let x = balance(&w, &offer, &paddr);
+            let y = balance(&w, &other, &paddr);
+            if x < 100_000 || y < 100_000 { continue; }
+            let amount = x / 1000 + 1;
+            let q = t.run(&mut w, json!({"op": "q_simulation", "pair": paddr, "offer": asset(&offer, amount)}));
+            if !q["ok"].as_bool().unwrap_or(false) { continue; }
+            let ret = limbs_to_u128(&q["ret"]).max(1);
+            let bp = ((amount as f64 / ret as f64) * 1e18) as u128;
+            let op = op_swap(&w, i, "carol", &offer, amount, st(bp.max(1)), st(D18 / 100), nul());
+            t.run(&mut w, op);
+        }
+    }
     // one more pair created inside the observed history, with an explicit commission rate (zero every other time):
     // the rate a creator asks for is the rate the pair charges
     {
@@ -986,6 +1008,30 @@ pub fn matrix_behaviour(r: &mut Rng, t: &mut Trace) {
             t.run(&mut w, json!({"op": "q_fac_config"}));
         }
     }
+    // --- C14 / C07: the withdraw hook delivered through one of the pair's own cw20 ASSETS (not its LP token).  Both
+    //     reserves are first inflated by donations so that a pro-rata refund against that token's (huge) supply would be
+    //     non-zero and payable: only the LP token may trigger a withdrawal
+    for i in 0..np {
+        let (a0, a1) = pair_infos(&w, i);
+        let paddr = w.pairs[i].addr.clone();
+        if is_native(&a0) && is_native(&a1) { continue; }
+        for info in [a0.clone(), a1.clone()] {
+            let amount = 1u128 << 92;
+            let op = if is_native(&info) {
+                json!({"op": "bank_send", "caller": "bob", "dest": paddr, "coins": [[id_of(&info), st(amount)]]})
+            } else {
+                json!({"op": "cw20_transfer", "token": id_of(&info), "caller": "bob", "dest": paddr, "amount": st(amount)})
+            };
+            t.run(&mut w, op);
+        }
+        for x in [a0, a1] {
+            if is_native(&x) { continue; }
+            // (the share ratio amount/supply is cut to 18 digits: the amounts are at least 10^-17 of the supply)
+            for amount in [1u128 << 50, 1u128 << 62, 1000] {
+                t.run(&mut w, json!({"op": "cw20_send", "token": id_of(&x), "caller": "carol", "contract": paddr, "amount": st(amount), "hook": {"kind": "withdraw"}}));
+            }
+        }
+    }
 }
 
 // ---------------------------------------------------------------------------------------------
@@ -1513,6 +1559,7 @@ pub fn kf1_behaviour(r: &mut Rng, t: &mut Trace) {
     let (setup, _) = std_setup_with(r, 1u128 << 100, false, true);
     let mut w = World::build(&setup);
     t.reset(&w, &setup);
+    let big = 340_000_000_000_000_000_000_000_000_000u128;
     for i in 0..w.pairs.len() {
         let x = (2 + r.below(7) as u128) * D18 + r.below128(D18);
         let op = op_provide(&w, i, "alice", x, x, nul(), nul());
@@ -1522,6 +1569,28 @@ pub fn kf1_behaviour(r: &mut Rng, t: &mut Trace) {
         let op = op_swap(&w, i, "carol", &a0, 1, nul(), nul(), nul());
         t.run(&mut w, op);
         let _ = a1;
+    }
+    // a pool at the capacity of the swap arithmetic: reserves just under the point where (reserve product) * 10^18 leaves
+    // 256 bits, pushed over it by a donation; a large swap must then abort (or be priced exactly), never be overpaid
+    // (the cw20 / cw20 pair: for a native asset the pair's own capacity guard counts the attached deposit twice)
+    let cc = (0..w.pairs.len()).find(|&i| { let (a0, a1) = pair_infos(&w, i); !is_native(&a0) && !is_native(&a1) });
+    if let Some(i) = cc {
+        let (a0, a1) = pair_infos(&w, i);
+        let paddr = w.pairs[i].addr.clone();
+        let op = op_provide(&w, i, "alice", big, big, nul(), nul());
+        t.run(&mut w, op);
+        let op = if is_native(&a0) {
+            json!({"op": "bank_send", "caller": "carol", "dest": paddr, "coins": [[id_of(&a0), st(big / 10)]]})
+        } else {
+            json!({"op": "cw20_transfer", "token": id_of(&a0), "caller": "carol", "dest": paddr, "amount": st(big / 10)})
+        };
+        t.run(&mut w, op);
+        for amount in [big / 2, big / 30, big / 3] {
+            let op = op_swap(&w, i, "carol", &a1, amount, nul(), nul(), nul());
+            t.run(&mut w, op);
+        }
+        let op = op_withdraw(&w, i, "alice", big / 7);
+        t.run(&mut w, op);
     }
 }
 
